@@ -938,12 +938,124 @@ func runHuge(c HugeCase, o *vh.Obs) *vh.Failure {
 	return nil
 }
 
+// ---------------------------------------------------------------- count sweep
+
+// SweepCase: a recipe mesh with exactly N primitives (a point cloud of N vertices, or a strip of N
+// triangles over N+2 shared vertices), positions float32-exact, normals for even N; every N up to a
+// bound is tried once (a defect that needs an exact multiple of an internal block size cannot be
+// found by sampling counts).
+type SweepCase struct {
+	N      int
+	Format int
+	Tri    bool
+}
+
+func sweepCases() []SweepCase {
+	n := 4000
+	if vh.Tier == "thorough" {
+		n = 40000
+	}
+	var out []SweepCase
+	for k := 1; k <= n; k++ {
+		out = append(out, SweepCase{N: k, Format: k % 3, Tri: (k/3)%2 == 0})
+	}
+	return out
+}
+
+func sweepPos(i int) vector3.Float64 {
+	return vector3.New(float64(i%61)/8, float64((i/61)%61)/8-3, float64(i/3721)/8+float64(i%7)/64)
+}
+
+func runSweep(c SweepCase, o *vh.Obs) *vh.Failure {
+	if c.N < 1 || c.N > 200000 {
+		o.Class("out-of-domain")
+		return nil
+	}
+	enc := encName[((c.Format%3)+3)%3]
+	o.NonTrivial()
+	if c.Tri {
+		o.Class("sweep/triangles/" + enc)
+	} else {
+		o.Class("sweep/points/" + enc)
+	}
+	nv := c.N
+	var idx []int
+	if c.Tri {
+		nv = c.N + 2
+		for t := 0; t < c.N; t++ {
+			if t%2 == 0 {
+				idx = append(idx, t, t+1, t+2)
+			} else {
+				idx = append(idx, t+1, t, t+2)
+			}
+		}
+	}
+	pos := make([]vector3.Float64, nv)
+	for i := range pos {
+		pos[i] = sweepPos(i)
+	}
+	var src modeling.Mesh
+	if c.Tri {
+		src = modeling.NewTriangleMesh(idx)
+	} else {
+		id := make([]int, nv)
+		for i := range id {
+			id[i] = i
+		}
+		src = modeling.NewMesh(modeling.PointTopology, id)
+		idx = id
+	}
+	src = src.SetFloat3Attribute(modeling.PositionAttribute, pos)
+	withNormals := c.N%2 == 0
+	if withNormals {
+		nr := make([]vector3.Float64, nv)
+		for i := range nr {
+			nr[i] = vector3.New(float64(i%3)-1, float64(i%5)/4, 0.5)
+		}
+		src = src.SetFloat3Attribute(modeling.NormalAttribute, nr)
+	}
+	buf := &bytes.Buffer{}
+	if err := ply.Write(buf, src, formats[((c.Format%3)+3)%3]); err != nil {
+		return vh.Failf("sweep/write-error/"+enc, "writing %d primitives: %v", c.N, err)
+	}
+	back, err := ply.ReadMesh(bytes.NewReader(buf.Bytes()))
+	if err != nil {
+		return vh.Failf("sweep/read-error/"+enc, "reading back %d primitives (%d bytes): %v", c.N, buf.Len(), err)
+	}
+	if back.Topology() != src.Topology() || back.PrimitiveCount() != c.N {
+		return vh.Failf("sweep/primitives/"+enc, "wrote %d primitives (%v), read %d (%v)", c.N, src.Topology(), back.PrimitiveCount(), back.Topology())
+	}
+	if !back.HasFloat3Attribute(modeling.PositionAttribute) || back.HasFloat3Attribute(modeling.NormalAttribute) != withNormals {
+		return vh.Failf("sweep/attributes/"+enc, "attributes after the round trip: %v (normals written: %v)", back.Float3Attributes(), withNormals)
+	}
+	gp, gi := back.Float3Attribute(modeling.PositionAttribute), back.Indices()
+	if gi.Len() != len(idx) {
+		return vh.Failf("sweep/primitives/"+enc, "wrote %d indices, read %d", len(idx), gi.Len())
+	}
+	for k, want := range idx {
+		v := gi.At(k)
+		if v < 0 || v >= gp.Len() {
+			return vh.Failf("sweep/index-out-of-range/"+enc, "corner %d references vertex %d of %d", k, v, gp.Len())
+		}
+		if gp.At(v) != sweepPos(want) {
+			return vh.Failf("sweep/corner-value/"+enc, "%d primitives: corner %d was written at %v and comes back at %v", c.N, k, sweepPos(want), gp.At(v))
+		}
+		if withNormals {
+			if n := back.Float3Attribute(modeling.NormalAttribute).At(v); n != vector3.New(float64(want%3)-1, float64(want%5)/4, 0.5) {
+				return vh.Failf("sweep/corner-normal/"+enc, "%d primitives: corner %d carries normal %v", c.N, k, n)
+			}
+		}
+	}
+	return nil
+}
+
 func TestC04(t *testing.T) {
 	vh.Drive(t, vh.Spec[Case]{Name: "default-writer", Quick: 40000, Thorough: 1500000, Gen: genCase, Run: runCase, Deadline: 20 * time.Second})
 	vh.Drive(t, vh.Spec[ConcCase]{Name: "concurrent-writers", Quick: 240, Thorough: 8000, Gen: genConc, Run: runConc, Repeat: 20})
 	vh.Drive(t, vh.Spec[CustomCase]{Name: "custom-writers", Quick: 40000, Thorough: 1500000, Gen: genCustom, Run: runCustom, Deadline: 20 * time.Second})
 	// ~1.2 GB and ~5 s per case; one case per encoding, on different shards
 	vh.Enumerate(t, vh.Spec[HugeCase]{Name: "huge-meshes", Run: runHuge, Deadline: 5 * time.Minute}, hugeCases())
+	vh.Enumerate(t, vh.Spec[SweepCase]{Name: "count-sweep", Run: runSweep}, sweepCases())
 }
 
 func FuzzC04(f *testing.F) {
